@@ -34,7 +34,9 @@ type interp struct {
 	recArr   ast.Expr              // the slice the key loop records into (== arr unless in a helper)
 	appended bool                  // positions are recorded with append, their number is len(arr)
 	arrs     map[types.Object]bool // arr and the locals it is copied to behind the key loop
-	binds    []paramBind           // helper parameters <- caller arguments
+	sim      bool                  // the key loop is not a readable counting loop: the scan phase is executed (sim.go)
+	fkeyObj  *types.Func
+	binds    []paramBind // helper parameters <- caller arguments
 }
 
 type paramBind struct {
@@ -276,9 +278,30 @@ func (it *interp) recover(filterKey *types.Func) string {
 	}
 	it.preamble = append([]ast.Stmt{}, top[:at]...)
 	var hok bool
+	it.fkeyObj = filterKey
 	it.loopVar, it.eF, it.eL, it.cmpOp, it.eS, hok = forHeader(info, it.keyLoop)
 	if !hok {
-		return "key loop header is not `for i := first; i <= last; i += step`"
+		// not a counting loop with a readable header: the position examined is whatever
+		// indexes args in the FilterKey call, and the positions are found by running the scan
+		if it.keyFn != it.fn {
+			return "key loop header is not `for i := first; i <= last; i += step`"
+		}
+		calls := core.Calls(it.keyLoop.Body, info, func(_ *ast.CallExpr, o types.Object) bool { return o == types.Object(filterKey) })
+		if len(calls) != 1 || len(calls[0].Args) != 1 {
+			return "key loop header is not `for i := first; i <= last; i += step`"
+		}
+		arg := strip(info, calls[0].Args[0])
+		if d := singleDef(info, body, objOf(info, arg)); d != nil {
+			arg = strip(info, d)
+		}
+		ie, isIdx := arg.(*ast.IndexExpr)
+		if !isIdx || objOf(info, ie.X) != it.keyArgs || objOf(info, strip(info, ie.Index)) == nil {
+			return "key loop header is not `for i := first; i <= last; i += step`"
+		}
+		it.sim, it.loopVar, it.eF, it.eL, it.eS = true, strip(info, ie.Index), nil, nil, nil
+		if _, why := it.positions(1, 1, 1, 4); why != "" {
+			return "the key loop is not a counting loop and its scan cannot be executed either: " + why
+		}
 	}
 	if n, bd := pat.Stmt("_arr[_num] = _i").Find(info, it.keyLoop.Body, pat.Binds{"_i": it.loopVar}); n != nil {
 		it.recArr, it.num = bd["_arr"].(ast.Expr), bd["_num"].(ast.Expr)
@@ -381,6 +404,9 @@ type convention struct {
 	C      int64
 	P      int64
 	strict bool // loop condition is i < last
+	// got, when set, yields the positions examined for n arguments by executing the
+	// scan (sim.go) instead of the progression F, F+S, ... <= La*n+Lb
+	got func(n int64) ([]int64, bool)
 }
 
 func (it *interp) conventionFor(f, l, s int64) (cv convention, why string) {
@@ -394,6 +420,9 @@ func (it *interp) conventionFor(f, l, s int64) (cv convention, why string) {
 			why = "cannot evaluate " + what + " " + it.c.Src(e)
 		}
 		return p, ok
+	}
+	if it.sim {
+		return it.simConvention(ev, f, l, s)
 	}
 	F, ok1 := get(it.eF, "first index")
 	L, ok2 := get(it.eL, "last index")
@@ -420,6 +449,47 @@ func (it *interp) conventionFor(f, l, s int64) (cv convention, why string) {
 	return cv, ""
 }
 
+// simConvention: the reading of one table row when the scan is executed: the
+// copy-out quantities are symbolic as usual, the positions examined come from
+// running the scan for each number of arguments.
+func (it *interp) simConvention(ev *evaluator, f, l, s int64) (cv convention, why string) {
+	lay, w := it.runCopyOut(ev).classify()
+	if w != "" {
+		return cv, w
+	}
+	var okc [2]bool
+	var okT bool
+	cv.C, okc[0] = lay.C.isConst()
+	cv.P, okc[1] = lay.P.isConst()
+	cv.Ta, cv.Tb, okT = lay.T.affine("n")
+	if !(okc[0] && okc[1] && okT) {
+		return cv, fmt.Sprintf("interpreter quantities are not of the form a*len(args)+b (tail=%v)", lay.T)
+	}
+	ref, why := it.positions(f, l, s, 12)
+	if why != "" {
+		return cv, why
+	}
+	cv.F, cv.S = -1, s
+	if len(ref) > 0 {
+		cv.F = ref[0]
+	}
+	if len(ref) > 1 {
+		cv.S = ref[1] - ref[0]
+	}
+	// every number of arguments compare() may ask for is run now: a scan that cannot be
+	// executed makes the row undecided here, it never turns into a verdict later
+	runs := map[int64][]int64{}
+	for n := int64(0); n <= 48; n++ {
+		got, why := it.positions(f, l, s, n)
+		if why != "" {
+			return cv, fmt.Sprintf("cannot execute the key scan for %d arguments: %s", n, why)
+		}
+		runs[n] = got
+	}
+	cv.got = func(n int64) ([]int64, bool) { got, ok := runs[n]; return got, ok }
+	return cv, ""
+}
+
 // r3 checks the data flow into the rebuilt vector on symbolic f, l, s.
 func (it *interp) r3() {
 	c := it.c
@@ -439,8 +509,12 @@ func (it *interp) r3() {
 	}
 	k := sym("k")
 	P, C, T := lay.P, lay.C, lay.T
-	c.Check("R3.ranges", "group-size", lay.grp.node.Pos(), C.eq(S),
-		fmt.Sprintf("each kept key is copied with %v consecutive arguments but the key loop advances by %v: companions (MSET values) are dropped or the next key is copied as a companion", C, S))
+	if it.sim {
+		c.Okf("R3.ranges", "group-size", lay.grp.node.Pos(), "the key loop is executed, not read: the distance between examined positions is compared with the group size %v per table row (R2.table)", C)
+	} else {
+		c.Check("R3.ranges", "group-size", lay.grp.node.Pos(), C.eq(S),
+			fmt.Sprintf("each kept key is copied with %v consecutive arguments but the key loop advances by %v: companions (MSET values) are dropped or the next key is copied as a companion", C, S))
+	}
 	// group a, element b
 	var a, b poly
 	for m := range lay.grp.src {
